@@ -162,6 +162,9 @@ func runC07(c *Ctx, r *Rec) {
 			}
 		}
 		viol, undec := conform(env, paths, spec)
+		if len(env.wraps) > 0 && bt.Info()&types.IsInteger != 0 {
+			viol = append(viol, fmt.Sprintf("the leaf computes %s in fixed-width arithmetic: for operands further apart than half the type's range the result wraps around and the sign test gives the wrong order (for example MaxInt64 against -1)", strings.Join(dedup(env.wraps), ", ")))
+		}
 		switch {
 		case len(viol) > 0:
 			r.fail("D1-leaf-order", construct, c.pos(fd.Pos()), strings.Join(viol, " | "))
@@ -478,6 +481,7 @@ func runC07(c *Ctx, r *Rec) {
 	// ---- D3 nil ladders and D4 dispatch
 	checkDispatch(c, r, cr)
 
+	checkReceiverWrites(c, r, "D5-receiver-writes-persist", cr.n)
 	// ---- D5 depth balance
 	for _, name := range sortedKeys(cr.ms) {
 		fd := cr.ms[name]
